@@ -288,7 +288,8 @@ def cases(tier):
     # long histories in which link TARGETS are deleted and re-created under the same name and linked again, with
     # by-name look-ups through held handles after every re-link (mc/explorer.soak_histories)
     out.append({"kind": "soak", "names": [], "ops": [], "hp": "explicit", "which": -1})
-    for i in range(6):
+    from mc import explorer as X_
+    for i in range(len(X_.soak_histories())):
         for hs in (None, "A", "AB", "AAB"):        # "A": every operation through one long-held set of handles
             out.append({"kind": "soak", "names": [], "ops": [], "hp": hs, "which": i})
     # names that are NOT short: 255 / 256 / 300 / 5 000 characters (the last two differ only in their last character)
